@@ -4,8 +4,8 @@ package corr
 //
 // Line protocol
 //
-//	flexenc:  new pt=<0..255> ssrc=<u32>
-//	          batch fec=<numFec 0..110> pkts=<hex,hex,…|-> [var=<one digit per packet>]
+//	flexenc:  new pt=<0..255> ssrc=<u32> [enc=<k>: several encoders side by side, default 0]
+//	          batch fec=<numFec 0..110> pkts=<hex,hex,…|-> [var=<one digit per packet>] [enc=<k>] [bad=<pos>:<kind>,…: see c14Damage]
 //	                                                            (each hex = one marshalled RTP packet)
 //	            var: how the rtp.Packet VALUE handed to EncodeFec expresses the same marshalled bytes
 //	              0 as Unmarshal leaves it   1 padding size only in the deprecated rtp.Packet.PaddingSize
@@ -16,6 +16,8 @@ package corr
 //	            → `fecs n=<k>` then k × `fec ssrc= pt= seq= ts= m= x= p= cc= payload=<hex>`
 //	flexint:  new n=<numMedia> f=<numFec> ssrc=<media ssrc> fpt=<fec pt> fssrc=<fec ssrc> [twid=<1..14: the stream negotiated the TWCC extension with this id>]
 //	          w pkt=<hex> [reuse=1] [fail=<i,j,…>] [wire=1: print the calls without the packet bytes]
+//	                      [bad=<kind>: the value written is pkt damaged so that pion/rtp cannot marshal it (c14Damage);
+//	                       its call of the bottom writer prints `out ssrc= pt= seq= bad=<kind> res=`]
 //	            → one `out ssrc= pt= seq= pkt=<hex of the marshalled packet> res=<ok|fail>` per call of
 //	              the bottom writer, in order (failed calls included)
 //	            → `ret n=<int> err=<number of injected errors in the returned error, 0 = nil>`
@@ -47,6 +49,7 @@ import (
 	"encoding/binary"
 	"encoding/hex"
 	"fmt"
+	"reflect"
 	"strings"
 	"testing"
 
@@ -162,11 +165,174 @@ func c14BaseSN(r *Rng, wrap bool, n int) uint16 {
 }
 
 // ---------------------------------------------------------------------------------------
+// packets pion/rtp cannot marshal, and the short / padded packets that follow them
+//
+// The property speaks about every repair packet; a media packet that rtp.Packet.MarshalTo rejects cannot be protected
+// (the unchanged encoder drops the repair packets that cover it: encodeFlexFecPacket returns false, no repair sequence
+// number is consumed), but every OTHER repair packet — of the same batch, of later batches, of other encoders, which
+// share nothing but the package-global pool of scratch buffers — must still recover its group byte for byte.  The
+// packet VALUES below are what an application can build with the public API of pion/rtp (struct fields, SetExtension):
+//
+//	pad0     padding bit set, padding size 0                      (rejected before a byte is written)
+//	gx<L>    extension under the generic profile 0x1234 with an L-byte payload, L % 4 != 0
+//	         (rejected after the fixed header, the CSRCs and the profile were written)
+//	gz<L>    the same under profile 0, as a first SetExtension with a payload of 256 bytes or more leaves it
+//	ob0 ob15 one-byte extension with id 0 / 15,  tb0: two-byte extension with id 0
+//	         (a first SetExtension does not check the id)
+//
+// The generator keeps a damage only when Marshal of the damaged value really fails with the pion/rtp in use (v1.10.5
+// marshals the last three); the interpreter checks it again (`err:marshals`).  The damage keeps sequence number, SSRC,
+// CSRCs, payload and payload type of the well-formed packet given in the op.
+
+func c14Damage(p *rtp.Packet, kind string) bool {
+	fill := func(n int) []byte {
+		b := make([]byte, n)
+		for i := range b {
+			b[i] = byte(0xA5 + 7*i)
+		}
+		return b
+	}
+	reset := func() {
+		p.Extension, p.ExtensionProfile, p.Extensions = false, 0, nil
+	}
+	switch {
+	case kind == "pad0":
+		p.Padding = true
+		p.Header.PaddingSize = 0
+		p.PaddingSize = 0 //nolint:staticcheck
+	case strings.HasPrefix(kind, "gx"):
+		l := atoi(kind[2:])
+		if l < 1 || l > 4000 || l%4 == 0 {
+			return false
+		}
+		reset()
+		p.Extension, p.ExtensionProfile = true, 0x1234
+		if p.SetExtension(0, fill(l)) != nil {
+			return false
+		}
+	case strings.HasPrefix(kind, "gz"):
+		l := atoi(kind[2:])
+		if l < 256 || l > 4000 || l%4 == 0 {
+			return false
+		}
+		reset()
+		if p.SetExtension(0, fill(l)) != nil { // first extension, too long for RFC 8285: the profile stays 0
+			return false
+		}
+	case kind == "ob0" || kind == "ob15":
+		reset()
+		if p.SetExtension(uint8(atoi(kind[2:])), fill(3)) != nil {
+			return false
+		}
+	case kind == "tb0":
+		reset()
+		if p.SetExtension(0, fill(40)) != nil {
+			return false
+		}
+	default:
+		return false
+	}
+	return true
+}
+
+var c14DamageKinds = []string{"pad0", "pad0", "gx1", "gx2", "gx3", "gx5", "gx6", "gx7", "gx13", "gx258", "gx1499",
+	"gz257", "gz258", "gz1501", "ob0", "ob15", "tb0"}
+
+// c14Fails: does pion/rtp refuse to marshal the packet given by the canonical bytes b once damaged?
+func c14Fails(b []byte, kind string) bool {
+	p := rtp.Packet{}
+	if p.Unmarshal(b) != nil || !c14Damage(&p, kind) {
+		return false
+	}
+	_, err := p.Marshal()
+	return err != nil
+}
+
+// c14Probe: the short and padded packets of a congestion controller's probing and of a stream that idles —
+// padding only, one payload byte and 255 bytes of padding, a few bytes with a drawn amount of padding.
+func c14Probe(r *Rng, seq uint16, ts, ssrc uint32) []byte {
+	p := rtp.Packet{Header: rtp.Header{Version: 2, PayloadType: uint8(r.Pick(96, 96, 97, 127)), SequenceNumber: seq,
+		Timestamp: ts, SSRC: ssrc, Padding: true, Marker: r.Chance(1, 4)}}
+	switch r.Intn(5) {
+	case 0:
+		p.Header.PaddingSize = 255
+	case 1:
+		p.Payload = c14Bytes(r, 1)
+		p.Header.PaddingSize = 255
+	case 2:
+		p.Header.PaddingSize = byte(r.Range(1, 40))
+	case 3:
+		p.Payload = c14Bytes(r, r.Range(0, 3))
+		p.Header.PaddingSize = byte(r.Range(1, 255))
+	default:
+		p.CSRC = []uint32{uint32(r.U64())}
+		p.Header.PaddingSize = byte(r.Range(60, 255))
+	}
+	b1, err := p.Marshal()
+	if err == nil {
+		q := rtp.Packet{}
+		if q.Unmarshal(b1) == nil {
+			if b2, err2 := q.Marshal(); err2 == nil && string(b1) == string(b2) {
+				return b1
+			}
+		}
+	}
+	return c14Packet(r, c14Tiny, seq, ts, ssrc)
+}
+
+// shapes of the packets that get damaged (the damage replaces the extension): CSRCs, padding, short and long payloads
+var (
+	c14BadBase  = c14Shape{csrcMax: 15, padMax: 40, payMin: 0, payMax: 60, anyPT: true}
+	c14BadLong  = c14Shape{csrcMax: 4, padMax: 8, payMin: 1380, payMax: 1600, anyPT: true}
+	c14NearMTU  = c14Shape{csrcMax: 3, extKind: 2, padMax: 4, payMin: 1440, payMax: 1475, anyPT: true}
+	c14Shortish = c14Shape{csrcMax: 2, extKind: 1, padMax: 255, payMin: 0, payMax: 12, anyPT: true}
+)
+
+// c14MixedBatch: n consecutive packets; `bad` of them (at drawn positions) are to be damaged, the others are probes
+// (share probes/4) or packets of shape sh.  Returns the pkts= and the bad= values ("" when no damage survived).
+func c14MixedBatch(r *Rng, sh c14Shape, n, bad, probes int, base uint16, ts, ssrc uint32) (string, string) {
+	if n == 0 {
+		return "-", ""
+	}
+	kinds := make([]string, n)
+	for k := 0; k < bad; k++ {
+		kinds[r.Intn(n)] = c14DamageKinds[r.Intn(len(c14DamageKinds))]
+	}
+	hs := make([]string, n)
+	var bs []string
+	for i := 0; i < n; i++ {
+		seq, t := base+uint16(i), ts+uint32(i)*uint32(r.Range(0, 3000))
+		var b []byte
+		switch {
+		case kinds[i] != "":
+			bsh := c14BadBase
+			if r.Chance(1, 6) {
+				bsh = c14BadLong
+			}
+			b = c14Packet(r, bsh, seq, t, ssrc)
+			if c14Fails(b, kinds[i]) {
+				bs = append(bs, fmt.Sprintf("%d:%s", i, kinds[i]))
+			}
+		case r.Intn(4) < probes:
+			b = c14Probe(r, seq, t, ssrc)
+		default:
+			b = c14Packet(r, sh, seq, t, ssrc)
+		}
+		hs[i] = hex.EncodeToString(b)
+	}
+	return strings.Join(hs, ","), strings.Join(bs, ",")
+}
+
+// ---------------------------------------------------------------------------------------
 // flexenc
 
 func c14GenEnc(r *Rng, tier string, idx int) Case {
-	classes := []string{"small", "shapes", "sweep", "long", "big", "wide", "wrap", "reject", "shapes", "small", "sweep", "reuse"}
+	classes := []string{"small", "shapes", "sweep", "long", "big", "wide", "wrap", "reject", "shapes", "small", "sweep", "reuse",
+		"unmarsh", "unmarsh", "unmarsh"}
 	cl := classes[idx%len(classes)]
+	if cl == "unmarsh" {
+		return c14GenEncUnmarsh(r)
+	}
 	ops := []string{fmt.Sprintf("new pt=%d ssrc=%d", r.Pick(0, 49, 118, 127, 255, r.Intn(256)), uint32(r.U64()))}
 	ssrc := uint32(r.U64())
 	ts := uint32(r.U64())
@@ -272,6 +438,63 @@ func c14GenEnc(r *Rng, tier string, idx int) Case {
 	return Case{Class: cl, Ops: ops}
 }
 
+// c14GenEncUnmarsh — class `unmarsh`: one to three encoders (streams) side by side; batches with packets pion/rtp cannot
+// marshal — every way it can fail, at every position of the batch, next to well-formed packets of every shape including
+// those larger than the scratch buffer — are followed by batches of short and padded packets on the same and on the
+// other encoders.
+func c14GenEncUnmarsh(r *Rng) Case {
+	type stream struct {
+		seq  uint16
+		ts   uint32
+		ssrc uint32
+	}
+	nEnc := r.Range(1, 3)
+	var ops []string
+	st := make([]stream, nEnc)
+	for k := range st {
+		ops = append(ops, fmt.Sprintf("new pt=%d ssrc=%d enc=%d", r.Pick(49, 118, 127, r.Intn(256)), uint32(r.U64()), k))
+		st[k] = stream{seq: c14BaseSN(r, r.Chance(1, 4), 20), ts: uint32(r.U64()), ssrc: uint32(r.U64())}
+	}
+	afterBad := false
+	for round := r.Range(2, 7); round > 0; round-- {
+		k := r.Intn(nEnc)
+		s := &st[k]
+		n := r.Range(1, 8)
+		f := r.Range(1, n+1)
+		if r.Chance(1, 8) {
+			n, f = r.Pick(15, 16, 47, 60), r.Range(1, 4)
+		}
+		what := r.Intn(5)
+		if afterBad && r.Chance(3, 4) {
+			what = 3
+		}
+		var pk, bad string
+		switch what {
+		case 0, 1: // unmarshallable packets among well-formed ones
+			sh := []c14Shape{c14Shapes, c14Shortish, c14Tiny, c14NearMTU, c14Big}[r.Intn(5)]
+			if n > 8 {
+				sh = c14Shortish
+			}
+			pk, bad = c14MixedBatch(r, sh, n, r.Range(1, 2), r.Intn(3), s.seq, s.ts, s.ssrc)
+		case 2: // every packet of the batch
+			pk, bad = c14MixedBatch(r, c14Tiny, n, 3*n, 0, s.seq, s.ts, s.ssrc)
+		case 3: // short and padded packets only
+			pk, _ = c14MixedBatch(r, c14Shortish, n, 0, r.Range(2, 4), s.seq, s.ts, s.ssrc)
+		default:
+			pk, _ = c14MixedBatch(r, c14Shapes, n, 0, 1, s.seq, s.ts, s.ssrc)
+		}
+		op := fmt.Sprintf("batch fec=%d pkts=%s enc=%d", f, pk, k) + c14DrawVariants(r, n)
+		if bad != "" {
+			op += " bad=" + bad
+		}
+		afterBad = bad != ""
+		ops = append(ops, op)
+		s.seq += uint16(n)
+		s.ts += uint32(r.Intn(100000))
+	}
+	return Case{Class: "unmarsh", Ops: ops}
+}
+
 func c14ParsePkts(s string) ([]rtp.Packet, bool) {
 	if s == "-" || s == "" {
 		return nil, true
@@ -369,7 +592,7 @@ func b2i(b bool) int {
 }
 
 func c14RunEnc(t *testing.T, ops []string, o *Out) {
-	var enc *flexfec.FlexEncoder03
+	encs := map[int]*flexfec.FlexEncoder03{} // `enc=<k>`, default 0: several encoders (streams) side by side
 	// the repair packets EncodeFec returned are the caller's (it may pace them out after encoding later batches): every
 	// packet is kept as the element of the returned slice — header and payload by reference — and re-rendered after
 	// every later op (retain_test.go)
@@ -385,9 +608,18 @@ func c14RunEnc(t *testing.T, ops []string, o *Out) {
 				o.P("bad-op")
 				continue
 			}
-			enc = flexfec.NewFlexEncoder03(uint8(pt), uint32(ssrc))
+			ek := 0
+			if v, ok := m["enc"]; ok {
+				ek = atoi(v)
+			}
+			encs[ek] = flexfec.NewFlexEncoder03(uint8(pt), uint32(ssrc))
 		case "batch":
 			f := atoi(m["fec"])
+			ek := 0
+			if v, ok := m["enc"]; ok {
+				ek = atoi(v)
+			}
+			enc := encs[ek]
 			if enc == nil || f < 0 || f > 110 {
 				o.P("bad-op")
 				continue
@@ -399,6 +631,27 @@ func c14RunEnc(t *testing.T, ops []string, o *Out) {
 			}
 			if !c14ApplyVariants(ps, m["var"]) {
 				o.P("err:noncanonical")
+				continue
+			}
+			// bad=<pos>:<kind>,…: these packet values are damaged so that pion/rtp cannot marshal them
+			badOK := true
+			if bs, ok := m["bad"]; ok && bs != "-" {
+				for _, e := range strings.Split(bs, ",") {
+					pos, kind, found := strings.Cut(e, ":")
+					i := atoi(pos)
+					if !found || i < 0 || i >= len(ps) || !c14Damage(&ps[i], kind) {
+						badOK = false
+						break
+					}
+					if _, err := ps[i].Marshal(); err == nil {
+						badOK = false
+						o.P("err:marshals")
+						break
+					}
+				}
+			}
+			if !badOK {
+				o.P("bad-op")
 				continue
 			}
 			fecs := enc.EncodeFec(ps, uint32(f))
@@ -427,8 +680,11 @@ func c14RunEnc(t *testing.T, ops []string, o *Out) {
 
 func c14GenInt(r *Rng, tier string, idx int) Case {
 	classes := []string{"plain", "shapes", "scribble", "foreign", "gaps", "passthrough", "scribble", "widebatch",
-		"faults", "faults", "wire"}
+		"faults", "faults", "wire", "unmarsh", "unmarsh"}
 	cl := classes[idx%len(classes)]
+	if cl == "unmarsh" {
+		return c14GenIntUnmarsh(r)
+	}
 	n := r.Range(1, 9)
 	f := r.Range(0, n+1)
 	if cl == "widebatch" {
@@ -532,6 +788,63 @@ func c14GenInt(r *Rng, tier string, idx int) Case {
 	}
 	return Case{Class: cl, Ops: ops}
 }
+
+// c14GenIntUnmarsh — class `unmarsh`: the application writes packet values pion/rtp cannot marshal (see c14Damage) in
+// between well-formed ones, followed by short and padded packets; on the protected stream, on other SSRCs through the
+// same writer, with a next writer that fails at drawn calls.  The interceptor forwards them like any packet; the repair
+// packets that would cover one are not produced, all others recover their group (wire check) and equal the model's.
+func c14GenIntUnmarsh(r *Rng) Case {
+	n := r.Range(1, 7)
+	f := r.Range(1, n+1)
+	ssrc := uint32(r.U64())
+	fssrc := uint32(r.U64()) | 1
+	fpt := r.Range(1, 127)
+	ops := []string{fmt.Sprintf("new n=%d f=%d ssrc=%d fpt=%d fssrc=%d", n, f, ssrc, fpt, fssrc)}
+	total := n*r.Range(2, 6) + r.Range(0, n-1)
+	seq := c14BaseSN(r, r.Chance(1, 4), total)
+	ts := uint32(r.U64())
+	pBad := r.Pick(1, 1, 2, 3) // of 8
+	for i := 0; i < total; i++ {
+		if r.Chance(1, 6) { // another SSRC through the same writer, possibly unmarshallable too
+			b := c14Packet(r, c14BadBase, uint16(r.Intn(65536)), ts, ssrc+1+uint32(r.Intn(3)))
+			op := "w pkt=" + hex.EncodeToString(b)
+			if k := c14DamageKinds[r.Intn(len(c14DamageKinds))]; r.Bool() && c14Fails(b, k) {
+				op += " bad=" + k
+			}
+			ops = append(ops, op)
+		}
+		var op string
+		switch x := r.Intn(8); {
+		case x < pBad:
+			sh := c14BadBase
+			if r.Chance(1, 8) {
+				sh = c14BadLong
+			}
+			b := c14Packet(r, sh, seq, ts, ssrc)
+			op = "w pkt=" + hex.EncodeToString(b)
+			if k := c14DamageKinds[r.Intn(len(c14DamageKinds))]; c14Fails(b, k) {
+				op += " bad=" + k
+			}
+		case x < 5:
+			op = "w pkt=" + hex.EncodeToString(c14Probe(r, seq, ts, ssrc))
+		default:
+			sh := []c14Shape{c14Shortish, c14Shapes, c14Tiny, c14NearMTU}[r.Intn(4)]
+			op = "w pkt=" + hex.EncodeToString(c14Packet(r, sh, seq, ts, ssrc))
+		}
+		if r.Chance(1, 8) {
+			op += c14PickS(r, " fail=0", " fail=1", " fail=0,1", fmt.Sprintf(" fail=%d", f))
+		}
+		if r.Chance(1, 6) && !strings.Contains(op, " bad=") {
+			op += " reuse=1"
+		}
+		ops = append(ops, op)
+		seq++
+		ts += uint32(r.Intn(3000))
+	}
+	return Case{Class: "unmarsh", Ops: ops}
+}
+
+func c14PickS(r *Rng, xs ...string) string { return xs[r.Intn(len(xs))] }
 
 // c14InjectedError is what the failing bottom writer returns.
 type c14InjectedError struct{ call int }
@@ -680,13 +993,32 @@ func c14RunInt(t *testing.T, ops []string, o *Out) {
 	}
 	raw := make([]byte, 4096) // the caller's single buffer (reuse=1)
 	shared := &rtp.Packet{}   // the caller's single packet object (reuse=1)
-	var failAt map[int]bool // calls of the bottom writer that fail during the current Write
+	var failAt map[int]bool   // calls of the bottom writer that fail during the current Write
 	call := 0
 	nRepair := 0
 	defer o.EndKept()
+	// the packet value of a `w … bad=<kind>`: pion/rtp cannot marshal it, so the call that forwards it is printed by its
+	// kind, once the header and payload handed down are seen to be the ones written
+	var curBad string
+	var curBadPkt *rtp.Packet
 	bottom := interceptor.RTPWriterFunc(func(h *rtp.Header, p []byte, _ interceptor.Attributes) (int, error) {
 		idx := call
 		call++
+		if curBad != "" && idx == 0 {
+			res := "ok"
+			if failAt[idx] {
+				res = "fail"
+			}
+			want := curBadPkt.Header
+			if !reflect.DeepEqual(c14NormHdr(*h), c14NormHdr(want)) || string(p) != string(curBadPkt.Payload) {
+				o.P("MEDIA-ALTERED seq=%d: the unmarshallable packet reached the next writer as %+v / %s", h.SequenceNumber, *h, hexs(p))
+			}
+			o.P("out ssrc=%d pt=%d seq=%d bad=%s res=%s", h.SSRC, h.PayloadType, h.SequenceNumber, curBad, res)
+			if failAt[idx] {
+				return 0, &c14InjectedError{idx}
+			}
+			return len(p), nil
+		}
 		buf := make([]byte, h.MarshalSize()+len(p)+int(h.PaddingSize))
 		k, err := rtp.MarshalPacketTo(buf, h, p) //nolint:staticcheck
 		if err != nil {
@@ -785,7 +1117,23 @@ func c14RunInt(t *testing.T, ops []string, o *Out) {
 			call = 0
 			wireMode = m["wire"] == "1"
 			var n int
-			if m["reuse"] == "1" && len(b) <= len(raw) {
+			curBad, curBadPkt = "", nil
+			if kind, ok := m["bad"]; ok {
+				p := rtp.Packet{}
+				_ = p.Unmarshal(b)
+				if !c14Damage(&p, kind) {
+					o.P("bad-op")
+					continue
+				}
+				if _, merr := p.Marshal(); merr == nil {
+					o.P("err:marshals")
+					continue
+				}
+				cp := p.Clone()
+				curBad, curBadPkt = kind, cp
+				n, err = w.Write(&p.Header, p.Payload, o.Attrs(nil))
+				curBad, curBadPkt = "", nil
+			} else if m["reuse"] == "1" && len(b) <= len(raw) {
 				copy(raw, b)
 				if shared.Unmarshal(raw[:len(b)]) != nil {
 					o.P("err:noncanonical")
@@ -808,6 +1156,17 @@ func c14RunInt(t *testing.T, ops []string, o *Out) {
 			o.P("bad-op")
 		}
 	}
+}
+
+// c14NormHdr: nil and empty CSRC / extension lists are the same header.
+func c14NormHdr(h rtp.Header) rtp.Header {
+	if len(h.CSRC) == 0 {
+		h.CSRC = nil
+	}
+	if len(h.Extensions) == 0 {
+		h.Extensions = nil
+	}
+	return h
 }
 
 func init() {
